@@ -248,6 +248,25 @@ def r1_coindexed(ctx: Context, rule: str = "C04.R1") -> None:
                           f"{qualname(node)}|{norm(node)[:60]} owner", loc(node), "written inside Worker",
                           f"`{norm(node)[:80]}` writes a Worker occupancy table from outside class Worker")
     ctx.floor(rule, "writes of Worker occupancy tables", n, 8)
+    # every access of the batch tables uses the strategy object itself as key (never a derived attribute such as `.id`)
+    n_keys = 0
+    for tbl in ("_placed_batches", "_batch_tasks_for_strategy"):
+        for node in ast.walk(worker):
+            key = None
+            if isinstance(node, ast.Subscript) and is_self_attr(node.value, tbl):
+                key = node.slice
+            elif isinstance(node, ast.Compare) and len(node.ops) == 1 and isinstance(node.ops[0], (ast.In, ast.NotIn)) and is_self_attr(node.comparators[0], tbl):
+                key = node.left
+            elif isinstance(node, ast.Call) and isinstance(node.func, ast.Attribute) and node.func.attr in ("get", "pop", "setdefault") \
+                    and is_self_attr(node.func.value, tbl) and node.args:
+                key = node.args[0]
+            if key is None:
+                continue
+            n_keys += 1
+            ctx.check(isinstance(key, ast.Name), rule, f"{qualname(node)}|`{norm(node)[:50]}` keyed by the strategy object", loc(node), f"key `{norm(key)}`",
+                      f"`{norm(node)[:70]}` looks `{tbl}` up with `{norm(key)}`, but the table is keyed by the BatchStrategy object: the lookup never "
+                      "matches, so members of a placed batch are refused (or a drained batch is never found)")
+    ctx.floor(rule, "keyed accesses of the batch tables", n_keys, 8)
 
 
 def _key_agreement(ctx, rule, fname, bundle, effects, key, where):
